@@ -8,7 +8,6 @@ open Dcg.Driver Dcg.Model.Escape Dcg.Gen.EscTables Dcg.Proofs.Escape
 def table? : SX → Option Table
   | .atom "enum" => some enumTable
   | .atom "typeddict" => some typedDictKeyTable
-  | .atom "pattern" => some patternTable
   | _ => none
 
 /-- refuter for `tableOK`: the first special character without an entry, or the first entry
@@ -43,7 +42,7 @@ def handlers : List (String × Handler) := [
     | _ => "err args"),
   ("esc.rawsafe", fun
     | [s] => match s.str? with
-      | some s => "ok " ++ toString (rawSafe '\'' patternTable s)
+      | some s => "ok " ++ toString (patternRawOK s)
       | none => "err args"
     | _ => "err args")
 ]
